@@ -31,8 +31,18 @@ func Replay(ch *core.Check, path string) int {
 	}
 	rp := Replayers[ch.ID]
 	if rp == nil {
-		fmt.Fprintln(os.Stderr, "no replayer for", ch.ID)
-		return 3
+		// generic: re-run the whole check in this process (one shard) and
+		// look for the recorded violation key
+		rp = func(json.RawMessage) (string, bool) {
+			c := &core.Ctx{ID: ch.ID, Tier: "quick", NShards: 1}
+			ch.Run(c)
+			for _, v := range c.R.Violations {
+				if v.Key == f.Key {
+					return v.Msg, true
+				}
+			}
+			return fmt.Sprintf("re-ran %s in one process: %d violation(s), none with key %q", ch.ID, c.R.NViol, f.Key), c.R.NViol > 0
+		}
 	}
 	fails := 0
 	for i := 0; i < 5; i++ {
